@@ -32,8 +32,9 @@ func (w *World) drawExternal() {
 	p.CacheKind = []string{"chaos", "noop", "lru", "lru-ttl"}[t.Intn(4)]
 	p.CacheSize = []int{1, 2, 8}[t.Intn(3)]
 	p.CacheTTL = []time.Duration{10 * time.Second, time.Minute, 10 * time.Minute}[t.Intn(3)] // the LRU's expiry ticker fires every TTL/100 of fake time
+	p.Prefill = []int{0, 0, 0, 0, 12, 12, 20, 36}[t.Intn(8)]
 	if w.mode.Faults || w.mode.StoreFaults || w.mode.Prop == "C14" {
-		for _, k := range []string{"store.err", "store.lost", "store.corrupt", "cache.miss", "cache.evict", "cache.err", "cache.drop"} {
+		for _, k := range []string{"store.err", "store.lost", "store.corrupt", "store.slow", "cache.miss", "cache.evict", "cache.err", "cache.drop"} {
 			if t.Chance(1, 2) {
 				p.Fault[k] = t.Range(1, 2)
 			}
@@ -75,7 +76,7 @@ func (x *extState) stop() {
 }
 
 var storeFaults = map[string][]string{
-	"store.Find": {"store.err", "store.lost", "store.corrupt"},
+	"store.Find": {"store.err", "store.lost", "store.corrupt", "store.slow"},
 	"store.Add":  {"store.err"},
 	"cache.Get":  {"cache.miss", "cache.evict", "cache.err"},
 	"cache.Set":  {"cache.drop", "cache.err"},
@@ -98,6 +99,17 @@ func (x *extState) options(parked []*kernel.Parked) []kernel.Option {
 		total := 0
 		for _, k := range storeFaults[p.Name] {
 			if k == "cache.evict" && x.cache.(*SimCache).Map == nil {
+				continue
+			}
+			if k == "store.slow" {
+				// a store that answers - correctly - only after the request's deadline has passed
+				op := x.w.opByParty(p.Party)
+				if op == nil || s.Now() < op.StartT+x.w.prof.Deadline {
+					continue
+				}
+				kinds = append(kinds, k)
+				weights = append(weights, 3)
+				total += 3
 				continue
 			}
 			if wt := pf[k]; wt > 0 {
@@ -228,4 +240,15 @@ func (x *extState) touchesForeign(op *Op) bool {
 		}
 	}
 	return false
+}
+
+// opByParty finds the operation a seam party name belongs to ("op007", "cachefill:op007").
+func (w *World) opByParty(party string) *Op {
+	party = strings.TrimPrefix(party, "cachefill:")
+	for _, op := range w.ops {
+		if op.Party == party {
+			return op
+		}
+	}
+	return nil
 }
